@@ -44,9 +44,9 @@ claim("C06",
       "Coq proof (loop invariant + tracker invariant by induction over calls) + checked model/code correspondence")
 claim("C07",
       "Coq theorem (PropC07.v): for every block size 7 < B <= 65542 and every checksum function, any list of entries of any sizes written by the record writer from cursor 0 is read back "
-      "identical and in order, then end of log, with no fuel exhaustion and byte counts adding up (all alignments arise as cases of the proof); entry and batch codecs round-trip. Tied to the code "
+      "identical and in order, then end of log, with no fuel exhaustion and byte counts adding up (all alignments arise as cases of the proof); entry and batch codecs round-trip; the same through the rolling WAL files (any number of blocks per file, entries spanning blocks and files; the reader over the files is the block reader over their concatenation; the writer rebuilt from the reader continues the same stream). Tied to the code "
       "by differential execution of the real RecordWriter/RecordReader on in-memory blocks (block-by-block hashes) with lengths aimed at every boundary case, and through files with restarts.",
-      "The file-level round trip (entries spanning WAL files) is not yet a theorem (FileStream.v pending); it is covered by the correspondence and the restart oracle.",
+      "The file-level theorem covers one writer incarnation from a fresh directory plus a restart; interleaved restarts/GC are covered by the correspondence and the restart oracle.",
       "Coq proof (stream invariant, induction over frames and entries) + checked model/code correspondence")
 claim("C10",
       "Coq theorems (PropC10.v): for EVERY directory content (any names, kinds, lengths, bytes) and any fault plan, open terminates (the model's fuel is never exhausted; explicit bound; fuel "
@@ -97,3 +97,11 @@ claim("C09",
       "and requires open to succeed with all records of un-hit appends intact.",
       "The transfer from streams to files/open rests on FileStream.v (pending) and on replay tolerating one missing entry (checked by the oracle).",
       "Coq proof (frame/record reader case analysis, induction over the frame layout) + checked model/code correspondence + per-frame damage oracle")
+claim("C02",
+      "Coq theorems (PropC02.v, stream level, every block size and checksum function): after a crash at ANY byte of the entry in flight, the record reader delivers every earlier entry and then nothing, "
+      "or one Corruption, or the in-flight entry itself (only when the missing bytes are all zero), never anything else short of a CRC collision between a frame and its own zero-completed prefix; it stops "
+      "at a position from which all bytes are zero and from which newly written entries are read back after the old ones (the recovered log is usable). Through files, metadata cut points (create / set_len / "
+      "unlink) and the observable-state disjunction: decided by the checked correspondence on crash images cut before every kind of event and inside write events, plus an oracle (recovered state = completed "
+      "calls, or those plus the in-flight one, or a partial truncate/delete; continuation workload and clean restart behave as the specification).",
+      "End-to-end file-level theorem pending (see evidence.stated_not_proved); kernel write ordering is assumed as the property states.",
+      "Coq proof (torn-write case analysis on the frame/record reader) + checked model/code correspondence + crash-image oracle")
